@@ -463,6 +463,67 @@ struct G {
                 return cnum();
         }
     }
+    // sums containing integer powers (2..5) of (constant + q*I): real and imaginary part of such a
+    // power are themselves sums with a non-zero numeric constant, which the Add visitor has to merge
+    RCP<const Basic> realconst()
+    {
+        switch (r.below(6)) {
+            case 0:
+                return pi;
+            case 1:
+                return E;
+            case 2:
+                return sqrt(integer(r.range(2, 3)));
+            case 3:
+                return add(pi, integer(r.range(1, 3)));
+            case 4:
+                return Rational::from_two_ints(*integer(r.range(1, 7)), *integer(r.range(2, 3)));
+            default:
+                return integer(r.range(1, 4));
+        }
+    }
+    RCP<const Basic> gausspow()
+    {
+        RCP<const Number> q = r.coin(2, 3) ? rcp_static_cast<const Number>(integer(r.coin() ? 1 : -1))
+                                          : Rational::from_two_ints(*integer(r.range(-3, 3) | 1), *integer(2));
+        RCP<const Basic> z = add(realconst(), mul(q, I));
+        return pow(z, integer(r.range(2, 5)));
+    }
+    RCP<const Basic> ripowsum()
+    {
+        vec_basic v;
+        v.push_back(gausspow());
+        int n = 1 + (int)r.below(3);
+        for (int i = 0; i < n; i++) {
+            switch (r.below(7)) {
+                case 0:
+                    v.push_back(integer(r.range(-4, 5)));
+                    break;
+                case 1:
+                    v.push_back(sqrt(I));
+                    break;
+                case 2:
+                    v.push_back(realconst());
+                    break;
+                case 3:
+                    v.push_back(gausspow());
+                    break;
+                case 4:
+                    v.push_back(mul(smallnum(), gausspow()));
+                    break;
+                case 5:
+                    v.push_back(sin(add(integer(r.range(1, 3)), I)));
+                    break;
+                default:
+                    v.push_back(Complex::from_two_nums(*integer(r.range(-3, 3)), *integer(r.range(1, 3))));
+                    break;
+            }
+        }
+        RCP<const Basic> e = add(v);
+        if (r.coin(1, 5))
+            e = mul(e, add(realconst(), I));
+        return e;
+    }
     // expressions for conjugate
     RCP<const Basic> conjexpr(int depth)
     {
@@ -579,7 +640,10 @@ void hx_gen(Rng &rng, const std::string &tier)
         std::vector<RCP<const Basic>> ris
             = {exp(I), pow(integer(2), I), sqrt(sub(one, pi)), sin(add(one, I)), sqrt(add(one, I)),
                pow(add(pi, I), integer(-3)), tan(add(one, I)), pow(I, Rational::from_two_ints(*integer(2), *integer(3))),
-               sqrt(neg(I)), csc(add(integer(2), I)), abs(add(one, I)), sqrt(integer(2)), pow(pi, half)};
+               sqrt(neg(I)), csc(add(integer(2), I)), abs(add(one, I)), sqrt(integer(2)), pow(pi, half),
+               // nested sums with constants in the real / imaginary parts of the terms
+               add(pow(add(pi, I), integer(3)), integer(2)), add(pow(add(pi, I), integer(3)), sqrt(I)),
+               add(pow(add(pi, I), integer(5)), E), add(pow(add(E, neg(I)), integer(4)), pow(add(pi, I), integer(2)))};
         for (auto &e : ris)
             emit_op("ri", e, "ri-fixed", 4000);
         emit_op("xexp", sin(x), "xexp", 4000);
@@ -612,6 +676,11 @@ void hx_gen(Rng &rng, const std::string &tier)
         }
         try {
             emit_op("ri", g.cexpr(1 + (int)rng.below(3)), "ri", maxlen);
+        } catch (const std::exception &) {
+        }
+        try {
+            if (it % 2 == 0)
+                emit_op("ri", g.ripowsum(), "ri-powsum", maxlen);
         } catch (const std::exception &) {
         }
     }
